@@ -10,6 +10,7 @@ CONSTANTS NS = 1
   Sweeps <- BB
   Caches <- BT
   DropInPort = TRUE
+  DeleteOnMove = TRUE
   IdleTO = 10
   HardTO = 30
   DropTO = 10
